@@ -15,6 +15,7 @@ server observations in event order and keeps, per stream, the set of states the 
 model says must be alive / must be forgotten has to be present in / absent from the daemon's table at every housekeeping pass.
 """
 import threading
+import uuid
 
 from ..world import World
 from .. import sched as S
@@ -106,7 +107,14 @@ class ObsDaemon(SV.Daemon):
 
     def _clientDisconnect(self, conn):
         _obs("disc-start", _conn_of(conn))
-        return super()._clientDisconnect(conn)
+        err = None
+        try:
+            return super()._clientDisconnect(conn)
+        except BaseException as x:
+            err = type(x).__name__
+            raise
+        finally:
+            _obs("disc-end", _conn_of(conn), err)
 
 
 _CODES = None
@@ -142,7 +150,7 @@ class StreamWorld(World):
               "reconnect_within_linger", "reconnect_after_linger", "terminated_error", "client_local_closed",
               "streaming_disabled", "two_proxies", "concurrent_streams", "multiplex", "thread", "housekeeping_observed",
               "temp_proxy_close", "client_local_stop", "preempted", "raced",
-              "connection_dropped", "continued_after_drop"]
+              "connection_dropped", "continued_after_drop", "concurrent_ops", "client_correlation_id", "disconnect_during_table_change"]
     # also counted, but too schedule-dependent to demand: "fetch_before_old_disconnect", "expired_but_still_answers"
     RULE = ("plan = (server type, serializer, ITER_STREAMING on/off, ITER_STREAM_LIFETIME in {0,5,20}, ITER_STREAM_LINGER in "
             "{0,3,10}, 1-2 proxies, 1-4 stream sources (generator/list, 0-8 items, optional ValueError at position k), 6-26 ops "
@@ -221,6 +229,11 @@ class StreamWorld(World):
                 ops.append({"op": "advance", "dt": rng.choice(ADVANCES)})
             elif r < 0.885:
                 ops.append(st({"op": "drop", "p": rng.randrange(nprox)}))
+            elif r < 0.905 and nprox == 2:
+                # two clients at the same instant: one loses / releases its connection, the other works on one of its streams
+                s = some_stream()
+                ops.append(st({"op": "par", "a": {"op": rng.choice(["release", "drop"]), "p": 1 - streams[s]["proxy"]},
+                               "b": {"op": rng.choice(["next", "next", "close"]), "s": s}}))
             elif r < 0.93:
                 # focus shape: the network kills the connection of a stream's proxy; the client finds out inside its next
                 # next(), reconnects and goes on fetching
@@ -258,6 +271,47 @@ class StreamWorld(World):
         race = streaming and rng.random() < 0.22
         if servertype == "thread" and not race and rng.random() < 0.15:
             commtimeout = 3.0       # the server itself drops connections that were idle for 3 s; the client finds out at its next call
+        par = streaming and not race and rng.random() < 0.14
+        if par:
+            # focus shape "disconnect while the table changes": proxy A (two open streams, created after one of proxy B) loses its
+            # connection at the very instant at which proxy B creates / exhausts / closes a stream; long after the linger period A
+            # comes back: both streams must be forgotten
+            nprox = 2
+            commtimeout = 0.0
+            lines, p_line, p_block = True, rng.choice([0.1, 0.25]), rng.choice([0.2, 0.6])
+            if linger == 0:
+                linger = rng.choice([3, 10])
+            if lifetime and rng.random() < 0.7:
+                lifetime = 0
+            pa = rng.randrange(2)
+            pb = 1 - pa
+            b1 = len(streams)
+            a1, a2, b2 = b1 + 1, b1 + 2, b1 + 3
+            nb = rng.choice([0, 1, 2])
+            streams.append({"proxy": pb, "kind": rng.choice(["gen", "list"]), "n": nb, "bad": -1})
+            streams.append({"proxy": pa, "kind": rng.choice(["gen", "list"]), "n": rng.choice([2, 3, 5]), "bad": -1})
+            streams.append({"proxy": pa, "kind": rng.choice(["gen", "list"]), "n": rng.choice([2, 3, 5]), "bad": -1})
+            streams.append({"proxy": pb, "kind": rng.choice(["gen", "list"]), "n": rng.choice([1, 3]), "bad": -1})
+            variant = rng.choice(["close", "close", "open", "exhaust"] if servertype == "thread" else ["close", "close", "close", "open"])
+            tail = [{"op": "open", "s": b1}, {"op": "open", "s": a1}, {"op": "open", "s": a2}]
+            if rng.random() < 0.5:
+                tail.append({"op": "next", "s": a1})
+            if variant == "exhaust":
+                tail += [{"op": "next", "s": b1} for _ in range(nb)]
+            t = sum(o["dt"] for o in ops if o["op"] == "advance")
+            if t == int(t):
+                tail.append({"op": "advance", "dt": 0.5})       # stay clear of the housekeeper's ticks (every POLL s)
+            bop = {"close": {"op": "close", "s": b1}, "open": {"op": "open", "s": b2}, "exhaust": {"op": "next", "s": b1}}[variant]
+            tail.append({"op": "par", "a": {"op": rng.choice(["release", "release", "drop"]), "p": pa}, "b": bop})
+            tail.append({"op": "advance", "dt": linger + 2.5})
+            tail += [{"op": "reconnect", "p": pa}, {"op": "next", "s": a1}, {"op": "next", "s": a2}]
+            ops = ops + tail
+        corr = [None] * nprox
+        if rng.random() < 0.25:
+            # the client thread of a proxy sets a fixed correlation id (documented client API): it travels with every call
+            corr[0] = 0
+            if nprox == 2:
+                corr[1] = rng.choice([None, 0, 1])
         if race:
             # focus shape "expiry race": a fresh stream reaches its lifetime (or its linger period after a disconnect) and the
             # client closes it / fetches from it at the very instant of the first housekeeping pass that would remove it
@@ -292,7 +346,7 @@ class StreamWorld(World):
             ops = ops + tail
         return {"servertype": servertype, "serializer": rng.choice(SERIALIZERS), "streaming": streaming,
                 "lifetime": lifetime, "linger": linger, "nproxies": nprox, "streams": streams, "ops": ops,
-                "commtimeout": commtimeout, "lines": lines, "p_line": p_line, "p_block": p_block,
+                "commtimeout": commtimeout, "corr": corr, "lines": lines, "p_line": p_line, "p_block": p_block,
                 "net": {"shuffle_select": rng.random() < 0.5}}
 
     def line_codes(self, plan):
@@ -306,6 +360,7 @@ class StreamWorld(World):
         if plan.get("nproxies", 1) > 1:
             p = dict(plan)
             p["nproxies"] = 1
+            p["corr"] = (plan.get("corr") or [None])[:1]
             p["streams"] = [dict(s, proxy=0) for s in plan["streams"]]
             p["ops"] = [dict(o, p=0) if "p" in o else o for o in plan["ops"]]
             yield p
@@ -349,6 +404,7 @@ class StreamWorld(World):
         daemon = srv.daemon
         uri = srv.register(Src(), "src")
         boxes = [{"op": None, "done": True} for _ in range(nprox)]
+        corr_used = [False]
         proxies = [None] * nprox
         oplog = []
 
@@ -408,6 +464,11 @@ class StreamWorld(World):
             return rec
 
         def client(p):
+            k = (plan.get("corr") or [None] * nprox)[p] if p < len(plan.get("corr") or []) else None
+            if k is not None:
+                # documented client API: a thread-local of THIS client thread, sent with every call it makes
+                cctx.correlation_id = uuid.UUID(int=((plan.get("seed", 0) + 1) * 1000003 + 7919 * (k + 1)) & ((1 << 128) - 1), version=4)
+                corr_used[0] = True
             proxy = CL.Proxy(uri)
             proxies[p] = proxy
             box = boxes[p]
@@ -429,15 +490,19 @@ class StreamWorld(World):
             t.start()
             threads.append(t)
 
-        state = {"hung": None}
+        state = {"hung": None, "par": 0}
 
-        def run_op(p, op):
-            """hand one op to the owning client thread and wait for its completion (virtual deadline)"""
-            if state["hung"]:
-                return False
+        def start(p, op):
+            """hand one op to the owning client thread"""
             box = boxes[p]
             box["done"] = False
             box["op"] = op
+
+        def finish(p, op):
+            """wait for its completion (virtual deadline)"""
+            if state["hung"]:
+                return False
+            box = boxes[p]
             if not sched.block(lambda: box["done"], 600.0, "op-done"):
                 state["hung"] = op
                 return False
@@ -445,54 +510,109 @@ class StreamWorld(World):
                 sched.settle(5.0)
             return True
 
-        attempted = set()
-        for op in plan["ops"]:
+        def run_op(p, op):
             if state["hung"]:
-                break
-            kind = op["op"]
-            if kind == "advance":
-                sched.sleep(float(op["dt"]))
-                continue
+                return False
+            start(p, op)
+            return finish(p, op)
+
+        attempted = set()
+
+        def resolve(op):
+            """-> index of the proxy that owns the op if the op means something right now, else None (an op on a stream that was
+            never opened, a second open of the same stream, an unknown slot ... is a no-op)"""
+            if not isinstance(op, dict):
+                return None
+            kind = op.get("op")
             if kind in ("open", "next", "close"):
                 s = op.get("s")
                 if not isinstance(s, int) or not 0 <= s < len(streams):
-                    continue
+                    return None
                 p = streams[s]["proxy"]
-                if not 0 <= p < nprox:
-                    continue
+                if not isinstance(p, int) or not 0 <= p < nprox:
+                    return None
                 if kind == "open":
                     if s in attempted:
-                        continue
-                    attempted.add(s)
+                        return None
                 elif s not in its:
-                    continue            # op on a stream that was never opened: no-op
-                run_op(p, op)
-                if kind == "open" and s not in its and oplog and oplog[-1]["out"][0] in ("closed", "comm"):
-                    attempted.discard(s)    # the call never reached the server (dead connection): a later open may try again
-            elif kind in ("release", "reconnect"):
+                    return None
+                return p
+            if kind in ("release", "reconnect", "drop"):
                 p = op.get("p")
                 if not isinstance(p, int) or not 0 <= p < nprox:
-                    continue
-                run_op(p, op)
-            elif kind == "drop":
-                # the network kills the proxy's connection between two client calls; nothing may be in flight on it
-                p = op.get("p")
-                if not isinstance(p, int) or not 0 <= p < nprox or proxies[p] is None:
-                    continue
-                idx = _conn_of(proxies[p]._pyroConnection)
-                if idx is None:
-                    continue
-                sched.settle(5.0)
-                csock, ssock = net.conns[idx]
-                if csock.closed or ssock.closed or csock.reset:
-                    continue
-                st0 = sched.stamp()
-                break_conn(csock, ssock)
-                oplog.append({"op": "drop", "p": p, "s": None, "conn": idx, "inv": st0, "ret": sched.stamp(), "out": ("ok",),
-                              "connected": True, "was_connected": True, "conn_before": idx, "final": False})
-                sched.ev("op", "drop", p, idx)
+                    return None
+                return p
+            return None
+
+        def before(op):
+            if op["op"] == "open":
+                attempted.add(op["s"])
+
+        def after(op):
+            if op["op"] == "open" and op["s"] not in its:
+                rec = next((r for r in reversed(oplog) if r["op"] == "open" and r["s"] == op["s"]), None)
+                if rec is not None and rec["out"][0] in ("closed", "comm"):
+                    attempted.discard(op["s"])  # the call never reached the server (dead connection): a later open may try again
+
+        def do_drop(p, op):
+            """the network kills the proxy's connection between two client calls; nothing may be in flight on it"""
+            if proxies[p] is None:
+                return
+            idx = _conn_of(proxies[p]._pyroConnection)
+            if idx is None:
+                return
+            sched.settle(5.0)
+            csock, ssock = net.conns[idx]
+            if csock.closed or ssock.closed or csock.reset:
+                return
+            st0 = sched.stamp()
+            break_conn(csock, ssock)
+            oplog.append({"op": "drop", "p": p, "s": None, "conn": idx, "inv": st0, "ret": sched.stamp(), "out": ("ok",),
+                          "connected": True, "was_connected": True, "conn_before": idx, "final": False})
+            sched.ev("op", "drop", p, idx)
+
+        def single(op):
+            p = resolve(op)
+            if p is None or state["hung"]:
+                return
+            if op["op"] == "drop":
+                do_drop(p, op)
                 if op.get("settle"):
                     sched.settle(5.0)
+                return
+            before(op)
+            run_op(p, op)
+            after(op)
+
+        for op in plan["ops"]:
+            if state["hung"]:
+                break
+            kind = op.get("op")
+            if kind == "advance":
+                sched.sleep(float(op["dt"]))
+            elif kind == "par":
+                # two ops of DIFFERENT proxies at the same instant: a = release / drop, b = open / next / close
+                a, b = op.get("a"), op.get("b")
+                pa, pb = resolve(a), resolve(b)
+                if pa is None or pb is None or pa == pb or a["op"] not in ("release", "drop") or b["op"] not in ("open", "next", "close"):
+                    single(a)
+                    single(b)
+                    continue
+                state["par"] += 1
+                if a["op"] == "drop":
+                    do_drop(pa, a)      # the server starts handling the disconnect while b's call arrives
+                    single(b)
+                else:
+                    before(b)
+                    start(pa, a)
+                    start(pb, b)
+                    finish(pa, a)
+                    finish(pb, b)
+                    after(b)
+                if op.get("settle"):
+                    sched.settle(5.0)
+            else:
+                single(op)
 
         # ---- end of run: close everything, look; release everything, wait for every expiry plus housekeeping, look again
         if not state["hung"]:
@@ -541,6 +661,10 @@ class StreamWorld(World):
                 raise S.HarnessError("client thread died: %r" % (st.died,))
         if sched.preempts:
             ctx.probe("preempted")
+        if state["par"]:
+            ctx.probe("concurrent_ops")
+        if corr_used[0]:
+            ctx.probe("client_correlation_id")
         self._judge(ctx, plan, oplog, run["obs"])
 
     # ------------------------------------------------------------------ reference model + oracle
@@ -579,11 +703,13 @@ class StreamWorld(World):
         raced_sids = set()
         raced_all = [False]
         starts = {"hk-start": "hk", "disc-start": "disc", "fetch": "fetch", "closex": "closex"}
-        ends = {"hk": "hk", "disc": "disc", "fetch-end": "fetch", "closex-end": "closex"}
+        ends = {"hk": "hk", "disc-end": "disc", "fetch-end": "fetch", "closex-end": "closex"}
         for _, what, o in events:
             if what != "obs":
                 continue
             k = o[1]
+            if k in ("create", "fetch", "closex") and any(x[0] == "disc" for x in open_sections):
+                ctx.probe("disconnect_during_table_change")
             if k in starts:
                 sec = [starts[k], o[3] if k in ("fetch", "closex") else None]
                 for other in open_sections:
@@ -631,8 +757,11 @@ class StreamWorld(World):
                 if sl["S"] == {GONE} and sl["sid"] in table:
                     if len([x for x in slots if x["sid"] == sl["sid"]]) > 1:
                         continue            # (only with colliding stream ids; reported through the items)
-                    bad(sl, "stream-leaked", sl["reason"] or "", "the server still holds the stream at %s (t=%.1f) although it was %s"
-                        % (label, now - S.EPOCH, sl["reason"]))
+                    if not sl.get("leaked"):
+                        sl["leaked"] = True     # reported once; the stream stays under observation (a later item is worse)
+                        bad(sl, "stream-leaked", sl["reason"] or "", "the server still holds the stream at %s (t=%.1f) although it was %s"
+                            % (label, now - S.EPOCH, sl["reason"]))
+                        sl["broken"] = False
                 elif GONE not in sl["S"] and sl["sid"] not in table:
                     bad(sl, "stream-forgotten-while-live", label.split(" ")[0], "the server's table no longer holds the stream at %s "
                         "(t=%.1f) although nothing ended it (model state %s)" % (label, now - S.EPOCH, sorted(sl["S"])))
@@ -779,11 +908,12 @@ class StreamWorld(World):
                                         sorted(sl["S"] or [])))
             # else: every item was delivered and the source would stop next: observably exact
 
-        cur_op = None
+        open_ops = {}       # proxy -> its call in flight (two at most, of different proxies, inside a 'par' op)
+        disc_applied = set()
         dead = set()        # connections killed by the network (drop) or closed by the server (observed disconnect)
         for stamp, what, o in events:
             if what == "op-start":
-                cur_op = o
+                open_ops[o["p"]] = o
                 o["fetches"] = 0
                 continue
             if what == "obs":
@@ -795,9 +925,13 @@ class StreamWorld(World):
                     if not streaming:
                         sl["reason"] = "never registered (streaming disabled)"
                 elif kind == "fetch":
-                    if cur_op is None or cur_op["op"] != "next":
+                    cands = [x for x in open_ops.values() if x["op"] == "next"]
+                    if len(cands) > 1:
+                        cands = [x for x in cands if x["conn_before"] == o[4]] or cands
+                    cur_op = cands[0] if cands else None
+                    if cur_op is None:
                         ctx.violate("unexpected-server-call", "fetch", "get_next_stream_item(%s) arrived outside a next() (during %r)"
-                                    % (o[3], cur_op and cur_op["op"]))
+                                    % (o[3], sorted(x["op"] for x in open_ops.values())))
                         continue
                     cur_op["fetches"] += 1
                     sl = slots[cur_op["s"]]
@@ -814,7 +948,13 @@ class StreamWorld(World):
                                 ctx.probe("closed_by_client")
                                 flags["interesting"] += 1
                             set_gone(sl, "closed by the client")
-                elif kind == "disc":
+                elif kind == "disc" or (kind == "disc-end" and o[4] is not None and (o[3], o[0]) not in disc_applied):
+                    # the server noticed that the connection ended (hook), or - hook never reached - its disconnect step failed:
+                    # the connection has ended all the same, so linger starts / the streams are dropped
+                    if kind == "disc":
+                        nxt = next((x for x in obs if x[1] == "disc-end" and x[3] == o[3] and x[0] > o[0]), None)
+                        if nxt is not None:
+                            disc_applied.add((o[3], nxt[0]))
                     dead.add(o[3])
                     for sl in slots:
                         if sl["S"] is None:
@@ -884,7 +1024,7 @@ class StreamWorld(World):
                                         % (max(life, linger) + 3 * POLL + 1, life, linger, len(o[3]), owners))
                 continue
             # ---- op-end
-            cur_op = None
+            open_ops.pop(o["p"], None)
             kind, out, p = o["op"], o["out"], o["p"]
             if kind == "drop":
                 dead.add(o["conn"])
